@@ -185,11 +185,60 @@ impl C13 {
     }
 }
 
+impl C13 {
+    /// A sequence of verification calls (controls and malformed inputs mixed) on a fresh thread with an instance of its
+    /// own: every call is judged exactly as it is judged alone (controls accepted, altered inputs not accepted, nothing
+    /// panics) whatever was handed to the verifiers before.
+    fn seq(&self, r: &Req, calls: &[Case]) -> Vec<Discrepancy> {
+        let r = r.clone();
+        let calls: Vec<Case> = calls.to_vec();
+        std::thread::spawn(move || {
+            let case = json!({"kind": "seq", "req": r.to_json(), "calls": calls.iter().map(|c| c.to_json(&r)).collect::<Vec<_>>()});
+            let res = with_rln(|rln| -> Result<Option<(usize, Discrepancy)>, String> {
+                setup_tree(rln, &r)?;
+                for (k, c) in calls.iter().enumerate() {
+                    if let Some(d) = C13.judge(rln, c, &r).into_iter().next() {
+                        return Ok(Some((k, d)));
+                    }
+                }
+                Ok(None)
+            });
+            match res {
+                Ok(None) => vec![],
+                Ok(Some((k, d))) => {
+                    if d.key.ends_with("/panic") {
+                        discard_rln();
+                    }
+                    let sym = d.key.rsplit('/').next().unwrap_or("").to_string();
+                    vec![Discrepancy { key: format!("C13/{}/after-other-calls/{}", calls[k].entry, sym), case, detail: format!("call number {k} of the sequence ({}): {}", calls[k].class, d.detail) }]
+                }
+                Err(e) => vec![Discrepancy { key: "C13/sequence/setup-error".into(), case, detail: e }],
+            }
+        }).join().unwrap_or_default()
+    }
+}
+
+fn case_from_json(case: &Value) -> Case {
+    Case {
+        base: case["base"].as_u64().unwrap_or(0) as usize,
+        entry: entry_static(case["entry"].as_str().unwrap_or("")),
+        class: case["class"].as_str().unwrap_or("").to_string(),
+        input: unhex(case["input_hex"].as_str().unwrap_or("")),
+        second: unhex(case["second_hex"].as_str().unwrap_or("")),
+        may_accept: case["may_accept"].as_bool().unwrap_or(false),
+        must_accept: case["must_accept"].as_bool().unwrap_or(false),
+    }
+}
+
 impl Prop for C13 {
     fn id(&self) -> &'static str { "C13" }
     fn level(&self) -> &'static str { "exploration" }
     fn run_case(&self, case: &Value) -> Vec<Discrepancy> {
         let r = match Req::from_json(&case["req"]) { Some(r) => r, None => return vec![] };
+        if case["kind"] == "seq" {
+            let calls: Vec<Case> = case["calls"].as_array().cloned().unwrap_or_default().iter().map(case_from_json).collect();
+            return self.seq(&r, &calls);
+        }
         let c = Case {
             base: case["base"].as_u64().unwrap_or(0) as usize,
             entry: entry_static(case["entry"].as_str().unwrap_or("")),
@@ -272,6 +321,39 @@ impl Prop for C13 {
         for r in res {
             findings.report_all(r);
         }
+        // sequences on a fresh thread: one representative of each class family of the first base message (the three
+        // controls first), every sequence of length <= 2 (thorough 3) that contains at least one control
+        let mut reps: Vec<&Case> = vec![];
+        {
+            let mut seen = std::collections::BTreeSet::new();
+            for c in all.iter().filter(|c| c.base == 0) {
+                let fam = format!("{}/{}", c.entry, c.class.split(|ch: char| ch == '.' || ch == '-').next().unwrap_or(""));
+                if c.entry != "recover_id_secret" && seen.insert(fam) {
+                    reps.push(c);
+                }
+            }
+        }
+        let mut seqs: Vec<Vec<Case>> = vec![];
+        for a in &reps {
+            for b in &reps {
+                if a.must_accept || b.must_accept {
+                    seqs.push(vec![(*a).clone(), (*b).clone()]);
+                }
+                if !q {
+                    for c in &reps {
+                        if [a, b, c].iter().filter(|x| x.must_accept).count() >= 1 && (a.must_accept as u8 + b.must_accept as u8 + c.must_accept as u8) <= 2 {
+                            seqs.push(vec![(*a).clone(), (*b).clone(), (*c).clone()]);
+                        }
+                    }
+                }
+            }
+        }
+        let sres = par_map(&seqs, ncpu(), |_, sq| self.seq(&bases[0], sq));
+        for r in sres {
+            findings.report_all(r);
+        }
+        ev.set("call_sequences_on_one_thread", json!(seqs.len()));
+        ev.set("sequence_call_alphabet", json!(reps.iter().map(|c| format!("{}/{}", c.entry, c.class)).collect::<Vec<_>>()));
         let mut classes = std::collections::BTreeSet::new();
         for c in &all {
             classes.insert(format!("{}/{}", c.entry, c.class));
@@ -281,7 +363,7 @@ impl Prop for C13 {
         ev.set("base_messages", json!(bases.len()));
         ev.set("input_classes", json!(classes.len()));
         ev.set("exhaustive", json!(true));
-        ev.set("rule", json!("for each accepted base message and each of verify, verify_rln_proof, verify_with_roots, recover_id_secret: every truncation length of the input (both arguments for recovery), declared signal length in {0, len-1, len+1, 2^32, 2^63, 2^64-1, wrapping}, each 32-byte field (4 proof chunks, 5 public values) replaced by zeros / ones / seeded random bytes, random proof part, entirely random input, every alias v + j*p < 2^256 of each of the five public values (also with an empty root set and with the same alias offered as accepted root), trailing bytes and odd-sized root buffers (must not crash, verdict recorded); everything except the untouched controls must return false or an error and nothing may panic; distinct_nontrivial = cases other than the controls"));
+        ev.set("rule", json!("for each accepted base message and each of verify, verify_rln_proof, verify_with_roots, recover_id_secret: every truncation length of the input (both arguments for recovery), declared signal length in {0, len-1, len+1, 2^32, 2^63, 2^64-1, wrapping}, each 32-byte field (4 proof chunks, 5 public values) replaced by zeros / ones / seeded random bytes, random proof part, entirely random input, every alias v + j*p < 2^256 of each of the five public values (also with an empty root set and with the same alias offered as accepted root), trailing bytes and odd-sized root buffers (must not crash, verdict recorded); everything except the untouched controls must return false or an error and nothing may panic; one representative of each (entry, class family) of the first base message forms a call alphabet, and every sequence of 2 (thorough 3) calls containing a control runs on a fresh thread and instance, each call judged as when made alone; distinct_nontrivial = cases other than the controls"));
         for c in all.iter().filter(|c| c.class.starts_with("alias") || c.class.starts_with("declared")).step_by(23).take(4) {
             ev.sample(json!({"entry": c.entry, "class": c.class, "input_len": c.input.len(), "base": bases[c.base].to_json()}));
         }
